@@ -23,7 +23,8 @@ def parse_rows(text):
 
 
 def site_of(case, val):
-    """the loader kind whose header name is displayed as `val` but is not what its audit looks at"""
+    """the loader kind whose header name is displayed as `val` but may not be what its audit looks at (SliceNode did so until
+    the D31-SliceNode repair; the signature keeps the site so that a regression is reported under its own name)"""
     proto = case["schema"].get("protocol")
     for _, v in G.all_paths(case["schema"]):
         if isinstance(v, dict) and f"{v.get('__module__')}.{v.get('__class__')}" == val:
@@ -73,13 +74,17 @@ def oracle(case, rec):
 
 
 def PROBE_CASES(snap=None):
-    """fixed witnesses of the open findings D31 (display name vs audited name)"""
+    """fixed witnesses of the findings D31 (display name vs audited name): FunctionNode@0 is open; SliceNode was repaired in
+    /repo (SliceNode.get_unsafe_set reports the header's type) and its witness, alone and nested in a list, must now be
+    reported -- replayed on every run (coq/props/C13.v: C13_slice_name_reported)"""
     sl = {"__class__": "y", "__module__": "x", "__loader__": "SliceNode", "__id__": 1, "content": {"start": None, "stop": None, "step": None}, "protocol": 2}
     f0 = {"__class__": "y", "__module__": "x", "__loader__": "FunctionNode", "__id__": 1, "content": {"module_path": "numpy", "function": "sqrt"}, "protocol": 0}
     d = ((snap or {}).get("classes", {}).get("old._general_v0.FunctionNode", {}).get("defaults") or ["scipy.special._ufuncs.expit"])[0]
     f0["content"] = {"module_path": d.rpartition(".")[0], "function": d.rpartition(".")[2]}
+    sl_in_list = {"__class__": "list", "__module__": "builtins", "__loader__": "ListNode", "__id__": 1, "protocol": sl["protocol"],
+                  "content": [{k: v for k, v in sl.items() if k != "protocol"} | {"__id__": 2}]}
     out = []
-    for sch in (sl, f0):
+    for sch in (sl, sl_in_list, f0):
         out.append({"schema": sch, "members": [], "tspec": "none", "tseed": 0, "show": "all", "malformed": False, "wellformed": True, "notes": ["probe"]})
     return out
 
